@@ -595,3 +595,99 @@ def _replace(stmt, old, new):
                         val[i] = new
                         return
     raise Fail('call node not found in its statement')
+
+
+# ----------------------------------------------------------------------
+# Loops over a literal tuple of callables ("apply these stages in order")
+# are unrolled: `for f in (a, b, c): x = f(x, y)` is the chain of calls.
+
+def _literal_seq(fnode, it):
+    """The literal tuple/list the loop iterates over, or None."""
+    if isinstance(it, (ast.Tuple, ast.List)):
+        return it
+    if not isinstance(it, ast.Name):
+        return None
+    binds = []
+    for n in _own_walk(fnode):
+        if isinstance(n, ast.Name) and n.id == it.id and \
+                isinstance(n.ctx, (ast.Store, ast.Del)):
+            binds.append(n)
+        if isinstance(n, ast.Attribute) and isinstance(n.value, ast.Name) \
+                and n.value.id == it.id and n.attr in (
+                    'append', 'extend', 'insert', 'pop', 'remove', 'sort',
+                    'reverse', 'clear'):
+            return None
+    if len(binds) != 1 or it.id in [a.arg for a in fnode.args.args]:
+        return None
+    for n in _own_walk(fnode):
+        if isinstance(n, ast.Assign) and len(n.targets) == 1 and \
+                n.targets[0] is binds[0] and \
+                isinstance(n.value, (ast.Tuple, ast.List)):
+            return n.value
+    return None
+
+
+def unroll_callable_loops(trees):
+    n_unrolled = 0
+    for tree in trees.values():
+        for fnode in [n for n in ast.walk(tree)
+                      if isinstance(n, (ast.FunctionDef,
+                                        ast.AsyncFunctionDef))]:
+            n_unrolled += _unroll_in(fnode, fnode.body, fnode)
+    return n_unrolled
+
+
+def _unroll_in(fnode, stmts, owner):
+    n = 0
+    i = 0
+    while i < len(stmts):
+        s = stmts[i]
+        for fld in ('body', 'orelse', 'finalbody'):
+            b = getattr(s, fld, None)
+            if isinstance(b, list) and b and isinstance(b[0], ast.stmt) \
+                    and not isinstance(s, (ast.FunctionDef,
+                                           ast.AsyncFunctionDef,
+                                           ast.ClassDef)):
+                n += _unroll_in(fnode, b, s)
+        if isinstance(s, ast.Try):
+            for h in s.handlers:
+                n += _unroll_in(fnode, h.body, h)
+        rep = _unroll(fnode, s) if isinstance(s, ast.For) else None
+        if rep is not None:
+            stmts[i:i + 1] = rep
+            i += len(rep)
+            n += 1
+            continue
+        i += 1
+    return n
+
+
+def _unroll(fnode, loop):
+    if loop.orelse or not isinstance(loop.target, ast.Name):
+        return None
+    seq = _literal_seq(fnode, loop.iter)
+    if seq is None or not (0 < len(seq.elts) <= 16):
+        return None
+    if not all(isinstance(e, (ast.Name, ast.Attribute)) for e in seq.elts):
+        return None
+    var = loop.target.id
+    calls_var = False
+    for st in loop.body:
+        for n in ast.walk(st):
+            if isinstance(n, (ast.Break, ast.Continue, ast.Return,
+                              ast.Yield, ast.YieldFrom)):
+                return None
+            if isinstance(n, ast.Name) and n.id == var and \
+                    isinstance(n.ctx, (ast.Store, ast.Del)):
+                return None
+            if isinstance(n, ast.Call) and isinstance(n.func, ast.Name) \
+                    and n.func.id == var:
+                calls_var = True
+    if not calls_var:
+        return None
+    out = []
+    for e in seq.elts:
+        sub = _Subst({var: e}, {})
+        for st in loop.body:
+            out.append(sub.visit(copy.deepcopy(st)))
+    return out
